@@ -1,5 +1,5 @@
 -------------------------- MODULE LifecycleTraceMC --------------------------
 (* Wrapper fixing the scenario tree of the C14 program template for trace validation. *)
 EXTENDS LifecycleTrace
-ParentDef == (1 :> 0) @@ (2 :> 1)
+ParentDef == (1 :> 0) @@ (2 :> 1) @@ (3 :> 2)
 =============================================================================
